@@ -122,6 +122,7 @@ pub fn note_layout(st: &mut RunStats, enc: &Encoded, layout: &Layout) {
     st.probe("data_packet_with_all_streams_empty", s.all_empty_data_packets > 0);
     st.probe("value_cut_across_packets", s.values_cut_across_packets > 0);
     st.probe("non_data_packet_first", s.non_data_first);
+    st.probe("pages_of_ignored_packets_before_first_data_packet", s.pages_of_leading_non_data);
     st.probe("non_data_packet_between_data_packets", s.non_data_middle);
     st.probe("non_data_packet_last", s.non_data_last);
     st.probe("data_packet_longer_than_60000_bytes", s.max_packet_len > 60_000);
@@ -240,7 +241,7 @@ impl Prop for C03 {
     fn meta(&self) -> Meta {
         Meta {
             level: "exploration",
-            rule: "seeded scenes (C01 generator: 0-4 items, <= 400 points per cloud and in 2.5 % of the runs one cloud of 3 000 - 70 000 points or a blob of 64 - 200 KiB, all record types and widths, extension attributes, full metadata string pool; producer-only features: missing guids, arbitrary bounds, partial limits, library version) encoded by the independent producer under a seeded layout schedule: per cloud a packetisation (whole / k points per packet / ragged: independent byte counts per stream and packet biased to 0, 1, all, cuts inside multi-byte values; up to 4/12/60 packets), index and ignored packets before, between and after data packets, shuffled section order with the XML anywhere and unreferenced padding, omitted optional type attributes (Integer minimum/maximum, scale, offset, precision), XML lexical variants (attribute order and quoting, whitespace incl. CRLF, comments, processing instructions, CDATA vs escaped text vs character references vs mixed, empty-element tags, number formats, missing declaration, missing empty data3D/images2D). The producer's output must pass refcodec's own fsck and decode to the scene (self check, else harness error). The crate's reader on a SimDisk with seeded short reads must list the encoded metadata, yield exactly recordCount points with the encoded values, and return every blob. Distinct = hash(scene shape, packet counts, layout switches, section residues); non-trivial = at least one point or payload".into(),
+            rule: "seeded scenes (C01 generator: 0-4 items, <= 400 points per cloud and in 2.5 % of the runs one cloud of 3 000 - 70 000 points or a blob of 64 - 200 KiB, all record types and widths, extension attributes, full metadata string pool; producer-only features: missing guids, arbitrary bounds, partial limits, library version) encoded by the independent producer under a seeded layout schedule: per cloud a packetisation (whole / k points per packet / ragged: independent byte counts per stream and packet biased to 0, 1, all, cuts inside multi-byte values; up to 4/12/60 packets), index and ignored packets before, between and after data packets, shuffled section order with the XML anywhere and unreferenced padding, omitted optional type attributes (Integer minimum/maximum, scale, offset, precision), XML lexical variants (order of the children of the root and of each point cloud structure, attribute order and quoting, whitespace incl. CRLF, comments, processing instructions, CDATA vs escaped text vs character references vs mixed, empty-element tags, number formats, missing declaration, missing empty data3D/images2D). The producer's output must pass refcodec's own fsck and decode to the scene (self check, else harness error). The crate's reader on a SimDisk with seeded short reads must list the encoded metadata, yield exactly recordCount points with the encoded values, and return every blob. Distinct = hash(scene shape, packet counts, layout switches, section residues); non-trivial = at least one point or payload".into(),
             assumptions: vec![
                 "legal layout space is conservative: only choices both the format description and libE57Format-written files support".into(),
                 "prototypes have at least one sized record (a legal all-constant prototype is a listed known finding class, excluded from generation)".into(),
@@ -254,6 +255,7 @@ impl Prop for C03 {
                 "data_packet_with_all_streams_empty".into(),
                 "value_cut_across_packets".into(),
                 "non_data_packet_first".into(),
+                "pages_of_ignored_packets_before_first_data_packet".into(),
                 "non_data_packet_between_data_packets".into(),
                 "non_data_packet_last".into(),
                 "xml_lexical_variants".into(),
